@@ -12,7 +12,7 @@ refuted at the end of the file (`double_close`, `send_on_closed`, `borrow_race`)
 import Biogo.Proofs.Processor
 import Biogo.Proofs.MapChunks
 import Biogo.Proofs.Promise
-import Biogo.Generated.Concurrent
+import Biogo.Drive.C19
 
 namespace Biogo.Properties.C19
 open Biogo.LTS
@@ -319,27 +319,69 @@ theorem seq_laws_table :
 
 end promise
 
-/-! ## Tie to the source -/
+/-! ## The driver's schedule runner stays inside the proved transition systems -/
+section driver
+open Biogo.Drive.C19
 
-/-- The facts regenerated from concurrent/processor.go and concurrent/promise.go on every check
-    run are those of the protocol variant (`fixed = true`) that the theorems above are about:
-    the hook points sit where the model's atomic blocks end; the worker returns its token,
-    passes hook (a), then closes `out` iff it is the `threads`-th to count itself out, then
-    releases the wait group; every setter runs under the mutex; Wait sleeps on the condition
-    variable while the mailbox is empty and takes / puts the message back with the mutex held,
-    hook (b) in between. -/
-theorem model_is_of_this_source :
-    Biogo.Generated.Concurrent.hookPoints =
-      [("NewProcessor", "worker.start"), ("NewProcessor", "worker.token_returned"),
-       ("NewProcessor", "worker.result"), ("Wait", "promise.wait.borrowed")] ∧
-    Biogo.Generated.Concurrent.closeRule = "exit-counter" ∧
-    Biogo.Generated.Concurrent.tokenReturnedBeforeHook = true ∧
-    Biogo.Generated.Concurrent.wgDoneAfterClose = true ∧
-    Biogo.Generated.Concurrent.settersLocked =
-      [("Fulfill", true), ("Fail", true), ("Recover", true), ("Break", true)] ∧
-    Biogo.Generated.Concurrent.waitTakesUnderMutex = true ∧
-    Biogo.Generated.Concurrent.waitSleepsOnCond = true := by
-  decide
+variable {σ ι : Type} [BEq σ]
+
+theorem settle_reach (M : Macro σ ι) : ∀ (fuel : Nat) (m : MSt σ),
+    Reach M.sys m.st → Reach M.sys (settle M fuel m).st := by
+  intro fuel
+  induction fuel with
+  | zero => intro m h; exact h
+  | succ fuel ih =>
+    intro m h
+    simp only [settle]
+    split
+    · exact h
+    · split
+      · rename_i s' hs
+        exact ih _ (Reach.step h hs)
+      · exact h
+
+theorem release_reach (M : Macro σ ι) (m : MSt σ) (k : Nat) (h : Reach M.sys m.st) :
+    Reach M.sys (release M m k).st := by
+  simp only [release]
+  split
+  · exact h
+  · exact settle_reach M _ _ h
+
+theorem drain_reach (M : Macro σ ι) (order : List Nat) : ∀ (fuel : Nat) (m : MSt σ),
+    Reach M.sys m.st → Reach M.sys (drain M order fuel m).st := by
+  intro fuel
+  induction fuel with
+  | zero => intro m h; exact h
+  | succ fuel ih =>
+    intro m h
+    simp only [drain]
+    split
+    · exact h
+    · split
+      · exact ih _ (release_reach M m _ h)
+      · exact h
+
+/-- Every state the driver reaches when it replays a controller schedule on the model
+    (`runMacro`, the function that produces the model side of each forced-schedule case) is a
+    reachable state of the transition system — so the theorems of this file apply to it. -/
+theorem runMacro_reach (M : Macro σ ι) (sched order : List Nat) :
+    Reach M.sys (runMacro M sched order).st := by
+  simp only [runMacro]
+  apply drain_reach
+  have : ∀ (l : List Nat) (m : MSt σ), Reach M.sys m.st → Reach M.sys (l.foldl (release M) m).st := by
+    intro l
+    induction l with
+    | nil => intro m h; exact h
+    | cons k rest ih => intro m h; exact ih _ (release_reach M m k h)
+  exact this _ _ Reach.init
+
+/-- instance: the Processor and Promise runs of the driver -/
+theorem driver_runs_are_reachable (pc : Processor.Cfg) (qc : Promise.Cfg) (sched order : List Nat) :
+    Reach (Processor.sys pc) (runMacro (procMacro pc) sched order).st ∧
+    Reach (Promise.sys qc) (runMacro (promMacro qc) sched order).st :=
+  ⟨runMacro_reach (procMacro pc) sched order, runMacro_reach (promMacro qc) sched order⟩
+
+end driver
 
 /-! ## The protocol as found (before the fixes) does not have the property -/
 section refutations
